@@ -218,7 +218,7 @@ Proof.
     destruct (Hpre _ eq_refl) as [[Hlive [Hfw [Hmc [Hdm Hp]]]] [Hnm [Hho Hrem]]];
     pose proof (get_m_len Hx) as Hlt.
   - apply G_finish; auto.
-  - destruct (m_bad x) eqn:Hbad.
+  - destruct (nth (m_idx x) (m_bad x) false) eqn:Hbad.
     + set (x' := set_m_idx x (S (m_idx x))).
       assert (Hp' : pend s0 m x') by (eapply pend_trans; eauto; unfold mimm; cbn; tauto).
       destruct (@MQ_upd m s0 s (put_m s m x') x' HM eq_refl eq_refl eq_refl eq_refl eq_refl Hp' Hlt)
